@@ -20,6 +20,13 @@
 #include <cmath>
 #include <string>
 
+#if defined(PRIMESIEVE_VERIF)
+// Verification hook H4 (see /verif/DESIGN.md): lets the external harness
+// replace the value returned by nthPrimeApprox() so that each of the
+// correction walks below can be forced. nullptr = unchanged.
+uint64_t (*primesieve_verif_nth_approx)(uint64_t approx) = nullptr;
+#endif
+
 namespace {
 
 /// PrimePi(2^64)
@@ -67,6 +74,10 @@ uint64_t PrimeSieve::nthPrime(int64_t n, uint64_t start)
   uint64_t nApprox = checkedAdd(primePiApprox(start), n);
   nApprox = std::min(nApprox, max_n);
   uint64_t primeApprox = nthPrimeApprox(nApprox);
+#if defined(PRIMESIEVE_VERIF)
+  if (primesieve_verif_nth_approx)
+    primeApprox = primesieve_verif_nth_approx(primeApprox);
+#endif
   primeApprox = std::max(primeApprox, start);
   int64_t countApprox = 0;
   uint64_t prime = 0;
@@ -137,6 +148,10 @@ uint64_t PrimeSieve::negativeNthPrime(int64_t n, uint64_t start)
   uint64_t nApprox = checkedSub(primePiApprox(start), n);
   nApprox = std::min(nApprox, max_n);
   uint64_t primeApprox = nthPrimeApprox(nApprox);
+#if defined(PRIMESIEVE_VERIF)
+  if (primesieve_verif_nth_approx)
+    primeApprox = primesieve_verif_nth_approx(primeApprox);
+#endif
   primeApprox = std::min(primeApprox, start);
   uint64_t prime = 0;
   int64_t countApprox = 0;
